@@ -292,6 +292,46 @@ def run_shard(shard):
                                       f"{got!r}, the limits say {want!r}", {"t": "limits"})
                         break
                 res["distinct"].add(("limits", width, signed, lo is None, hi is None))
+        # user-declared SCALED numbers, signed ones included ("sign- and scale-byte aware", "scaled numbers ... follow their
+        # documented encodings"): the value is scaling_factor x the (signed) big-endian number, MASK / TMASK sit at the signed
+        # all-ones patterns 0x7F.. / 0x7F..FE, and the limits apply to the unscaled number exactly as for a plain number
+        import decimal
+        from dali.memory.location import FixedScaleNumericValue
+        for width, signed in ((1, False), (1, True), (2, True), (2, False)):
+            for factor in (decimal.Decimal("0.1"), 10):
+                for lo, hi, masks in ((None, None, False), (-40 if signed else 0, 100, True), (0, None, False)):
+                    bank = MemoryBank(62, 0x40)
+                    locs = tuple(MemoryLocation(0x10 + i, type_=MemoryType.ROM) for i in range(width))
+                    cls = type("Scaled", (FixedScaleNumericValue,), {"bank": bank, "locations": locs, "signed": signed, "min_value": lo, "max_value": hi,
+                                                                     "scaling_factor": factor, "mask_supported": masks, "tmask_supported": masks})
+                    top = (1 << (8 * width - (1 if signed else 0))) - 1         # the all-ones pattern of the value's own number range
+                    raws = range(256) if width == 1 else sorted(set(list(range(0, 65536, 257)) + [0, 1, 2, 100, 101, 0x7FFD, 0x7FFE, 0x7FFF, 0x8000, 0x8001,
+                                                                                                     0xFFD7, 0xFFD8, 0xFFD9, 0xFFFD, 0xFFFE, 0xFFFF]))
+                    for rv in raws:
+                        raw = rv.to_bytes(width, "big")
+                        num = int.from_bytes(raw, "big", signed=signed)
+                        if masks and rv == top:
+                            want = "MASK"
+                        elif masks and rv == top - 1:
+                            want = "TMASK"
+                        elif (lo is not None and num < lo) or (hi is not None and num > hi):
+                            want = "Invalid"
+                        else:
+                            want = factor * num
+                        lst = [None] * 255
+                        for i, b in enumerate(raw):
+                            lst[0x10 + i] = b
+                        n += 1
+                        try:
+                            got = cls.from_list(lst)
+                        except Exception as e:
+                            got = "EXC:" + repr(e)
+                        gotn = got.name if isinstance(got, FlagValue) else got
+                        if gotn != want:
+                            add_violation(res, "C11:scaled-user-value", f"user fixed-scale value (width {width}, signed={signed}, factor {factor}, min_value={lo}, "
+                                          f"max_value={hi}, masks={masks}) raw {raw.hex()}: {got!r}, the declaration says {want!r}", {"t": "limits"})
+                            break
+                    res["distinct"].add(("scaled", width, signed, str(factor), masks))
         # locations "in the order required by the value": LSB first, with a gap, three bytes reversed - interpretation takes the bytes
         # at the DECLARED addresses in declared order (MASK / TMASK patterns included), whatever the neighbouring bytes are
         for addrs in ((0x13, 0x12), (0x20, 0x22), (0x2A, 0x29, 0x28), (0x30, 0x31)):
